@@ -51,10 +51,10 @@ def jason_to_leaf(j):
     )
     
     if 'complex' in j:
-        n.complex = [
+        n.complex = (
             from_uid_string( j['complex'][0] ),
             from_uid_string( j['complex'][1] )
-        ]
+        )
     if 'correlation' in j:
         items = j['correlation'].iteritems() if PY2 else j['correlation'].items()
         n.correlation = {
